@@ -13,7 +13,7 @@ ASSUMPTIONS_COMMON = [
 
 HOOK_COMMITS = ['63b1378 verif hook: include external Kani harnesses under cfg(kani)']
 
-CLAIMED = ['C01', 'C02', 'C03', 'C04', 'C05', 'C06', 'C07', 'C09', 'C10', 'C11', 'C12', 'C13', 'C14', 'C15', 'C16', 'C17', 'C18', 'C20']
+CLAIMED = ['C01', 'C02', 'C03', 'C04', 'C05', 'C06', 'C07', 'C09', 'C10', 'C11', 'C12', 'C13', 'C14', 'C15', 'C16', 'C17', 'C18', 'C19', 'C20']
 
 INFO = {
  'C20': {
@@ -34,6 +34,8 @@ INFO.update({
          'not_covered': ['thread schedules and atomic orderings', 'async_task internals (poll/drop on the loop thread)', 'the enqueue itself (Mutex<mpsc::Sender>)', 'Scheduler::schedule, Executor::drop', 'StreamSource (Pin/Context)'], 'trusted': ['slab::Slab as a finite map (assumed)', 'atomic store/swap witnesses through identity stand-ins (R19)']},
  'C11': {'claim': 'Sequential content of the stop/wake-up mechanisms on the verbatim text: run() returns Ok only after having read the stop flag as raised (and forwards every dispatch error); LoopSignal::stop() has raised that flag when it returns; LoopSignal::wakeup() / Notifier::notify() have called the poller\'s notify; a synthetic-event-free dispatch waits with exactly the caller\'s timeout (see C12/C14 slice).',
          'not_covered': ['that a poller notification issued before the wait makes the next wait return (sticky notification: polling/kernel behaviour)', 'memory ordering between stop() and the loop thread', 'block_on (feature block_on: Pin/Context/Waker)', 'at most one more iteration after stop (timing)'], 'trusted': ['atomic load/store witnesses through identity stand-ins (R19)', 'frame: dispatch_events/dispatch_idles do not replace the shared Signals object (assumed on the two signature-only callees)']},
+ 'C19': {'claim': 'Signal-mask bookkeeping of the Signals source on the verbatim text (feature signals; not part of the baseline build, verified on the source text): after a successful new / add_signals / remove_signals / set_signals the tracked set is exactly the requested set algebra (over slices of any length), the signalfd reports exactly the tracked set, and the corresponding sets have been blocked / unblocked for the thread (must-call witnesses); Drop asks to unblock exactly the tracked set; the callback is callable only with a signal instance that has just been read from the signalfd (consumed by the read: once), the descriptor is drained until it reports nothing pending; registered READ / Level.',
+         'not_covered': ["the thread's blocked set and signal delivery themselves (process/kernel state)", 'calloop Signal enum and its as_nix/from_num mapping (generated by a macro: stand-in, assumed number-preserving)', 'Event accessors (macro-generated)', 'F8: set_signals transiently unblocks signals present in both sets', 'state after an Err return (documented: mask may have changed)'], 'trusted': ['nix SigSet as a set of numbers, SignalFd mask view (assumed)']},
  'C13': {'claim': 'Slot semantics of idle callbacks: cancel() empties the slot; dispatch() never calls anything on an empty slot and leaves it empty.',
          'not_covered': ['insert_idle FnOnce wrapper (closure mutating captured state)', 'dispatch_idles take-then-run, ordering, idle inserted by idle'], 'trusted': []},
  'C18': {'claim': 'Whole TransientSource state machine on the verbatim text (rewrites R1-R3, R6, R8): for every state x {process_events with any child result, remove, replace, map, register, reregister, unregister}, any child obeying the registration protocol and any parent whose register/unregister alternate, the state invariant (child registered exactly when it is the current kept child of a registered parent) is preserved, the child protocol preconditions hold at all 14 call sites, a child is dropped only when unregistered, events are forwarded only from the kept child, only Continue/Reregister are returned. Three obligations fail on the real code (known findings F6a/b/d).',
